@@ -51,8 +51,54 @@ pub fn case_seed(seed: u64, id: &str, index: u64) -> u64 {
     mix(&[seed, prop_tag(id), index])
 }
 
+/// The scenario with index `index`: the property's own generator plus what every property
+/// shares. One scenario in sixteen gets a *history*: before it, the same thread runs the same
+/// command line on part of the same input against a source and a sink that fail half-way.
+/// Whatever that aborted run leaves behind (a static, a thread-local, a recycled table) must
+/// not change the scenario's verdict.
+pub fn generate_case(prop: &dyn Property, seed: u64, index: u64, tier: Tier) -> Case {
+    let mut rng = Rng::new(case_seed(seed, prop.id(), index));
+    let mut case = prop.generate(&mut rng, tier);
+    if mix(&[seed, prop_tag(prop.id()), index, 0x5eed]) % 16 == 0 && !prop.process_level_only() {
+        case.set("aborted_run_before", 1);
+    }
+    case
+}
+
+fn aborted_run_before(case: &Case, ctx: &mut Ctx) {
+    let input = case.stream();
+    if input.len() < 4 {
+        return;
+    }
+    let mut spec = crate::common::case_spec(case, &input);
+    spec.delivery.whole = false;
+    spec.endless = None;
+    spec.rfault = Some(crate::world::Fault {
+        at: input.len() * 2 / 3,
+        kind: crate::world::ErrKind::Other,
+        sticky: true,
+    });
+    spec.out = crate::world::SinkPlan::default();
+    spec.out.fail = Some(crate::world::Fault {
+        at: 40,
+        kind: crate::world::ErrKind::StorageFull,
+        sticky: true,
+    });
+    spec.err = crate::world::SinkPlan::default();
+    spec.max_events = 200_000;
+    let saved = (ctx.jawk_panic.take(), ctx.harness_error.take());
+    let _ = ctx.exec(spec);
+    ctx.stats.probe("history: an aborted run of the same command line before the scenario");
+    // a panic or abort of the prelude itself is some other scenario's business
+    ctx.jawk_panic = saved.0;
+    ctx.harness_error = saved.1;
+}
+
 /// check + the generic "no jawk panic" rule + harness error detection
 pub fn full_check(prop: &dyn Property, case: &Case, ctx: &mut Ctx) -> Result<Option<Violation>, String> {
+    if case.param("aborted_run_before") == 1 {
+        aborted_run_before(case, ctx);
+    }
     let v = prop.check(case, ctx);
     if let Some(h) = &ctx.harness_error {
         return Err(h.clone());
@@ -82,7 +128,9 @@ pub fn worker_tmp(tag: &str) -> PathBuf {
     } else {
         std::env::temp_dir()
     };
-    let d = base.join(format!("jawk-sim-{}-{}", std::process::id(), tag));
+    // fixed length: the path shows up in diagnostics, and a sink that takes one byte per
+    // call turns its length into a number of seam events (the selfcheck compares those)
+    let d = base.join(format!("jawk-sim-{:07}-{:_<10}", std::process::id(), tag));
     let _ = std::fs::create_dir_all(&d);
     d
 }
@@ -170,8 +218,7 @@ pub fn run_batch(prop: Box<dyn Property>, tier: Tier) -> BatchResult {
                         s.1.store(started.elapsed().as_millis() as u64, Ordering::SeqCst);
                         continue;
                     }
-                    let mut rng = Rng::new(case_seed(seed, prop.id(), index));
-                    let case = prop.generate(&mut rng, tier);
+                    let case = generate_case(prop.as_ref(), seed, index, tier);
                     let path = write_replay(&root, prop.id(), index, seed, &case, "hang", "a single scenario ran for more than 45 s inside the batch and again for more than 90 s alone in a fresh process without returning");
                     println!(
                         "VIOLATION property={} replay={} rule={}.hang (wall-clock backstop; not minimised)",
@@ -217,8 +264,7 @@ pub fn run_batch(prop: Box<dyn Property>, tier: Tier) -> BatchResult {
                     use std::os::unix::fs::FileExt;
                     let _ = f.write_at(&(index + 1).to_le_bytes(), (wi * 8) as u64);
                 }
-                let mut rng = Rng::new(case_seed(seed, prop.id(), index));
-                let case = prop.generate(&mut rng, tier);
+                let case = generate_case(prop.as_ref(), seed, index, tier);
                 if trace_cases {
                     eprintln!("case {index} {:?}", case.argv());
                 }
@@ -263,8 +309,7 @@ pub fn run_batch(prop: Box<dyn Property>, tier: Tier) -> BatchResult {
                         // determinism re-check of 1% of the seeds
                         if index % 100 == 7 {
                             let d1 = digest_of(&case, &v, ctx.stats.trace);
-                            let mut rng2 = Rng::new(case_seed(seed, prop.id(), index));
-                            let case2 = prop.generate(&mut rng2, tier);
+                            let case2 = generate_case(prop.as_ref(), seed, index, tier);
                             let mut ctx2 = Ctx::new(tier, tmp.clone());
                             let v2 = full_check(prop.as_ref(), &case2, &mut ctx2).unwrap_or(None);
                             let d2 = digest_of(&case2, &v2, ctx2.stats.trace);
@@ -625,8 +670,7 @@ pub fn supervise(id: &str, tier: Tier) -> i32 {
             .status();
         if let Ok(st) = st {
             if st.code().is_none() {
-                let mut rng = Rng::new(case_seed(seed, id, index));
-                let case = prop.generate(&mut rng, tier);
+                let case = generate_case(prop.as_ref(), seed, index, tier);
                 let rule = format!("{id}.abort");
                 let detail = format!("the process was killed ({st}) while executing this scenario: jawk aborted (allocation failure or stack overflow) instead of returning an error");
                 let path = write_replay(&root, id, index, seed, &case, &rule, &detail);
@@ -697,8 +741,7 @@ pub fn one(id: &str, index: u64, tier: Tier) -> i32 {
         return 2;
     };
     let seed = seed_from_env();
-    let mut rng = Rng::new(case_seed(seed, id, index));
-    let case = prop.generate(&mut rng, tier);
+    let case = generate_case(prop.as_ref(), seed, index, tier);
     let tmp = worker_tmp("one");
     let mut ctx = Ctx::new(tier, tmp.clone());
     let r = full_check(prop.as_ref(), &case, &mut ctx);
